@@ -625,8 +625,8 @@ theorem readCRule_at (P T : List Nat) (c : Bytes) (r : Rule) (h : ROkC r) :
   rw [drop_wordsToBytes_append', wordsToBytes_append, List.append_assoc, bytesToWords_append _ hlt]
   simp only [cruleWords, w16_of_lt h.nback, w16_of_lt h.nin, w16_of_lt h.nlook, w16_of_lt h.nact,
     List.cons_append, List.nil_append, List.append_assoc, counted_left]
-  have e : (if (r.input.length + 1 == 0) = true then 65535 else r.input.length + 1 - 1) = r.input.length := by
-    rw [if_neg (by simp)]; omega
+  rw [if_neg (by simp)]
+  have e : r.input.length + 1 - 1 = r.input.length := by omega
   rw [e]
   simp only [takeN_left, counted_left]
   have hal := actionWords_length r.actions
